@@ -190,6 +190,11 @@ func (s *SwapStateMachine) SendEvent(event EventType, eventCtx EventContext) (bo
 
 	// validate and apply event context
 	if eventCtx != nil {
+		// An event that the current state does not handle must not leave a
+		// trace: reject it before its context is applied and persisted.
+		if _, err := s.getNextState(event); err != nil {
+			return false, ErrEventRejected
+		}
 		err = eventCtx.Validate(s.Data)
 		if err != nil {
 			s.mutex.Unlock()
